@@ -14,6 +14,9 @@ def _tag(line, out):
 
 
 def run(ctx):
+    import time
+    t0 = time.time()
+    marks = {}
     ctx.modelled += [
         "the directory of the log file is a partial map index -> bytes (0 = path, i = path-i); os.Rename/Remove/"
         "Stat/OpenFile(O_APPEND|O_CREATE)/MkdirAll succeed (only `not exist` errors occur, and are ignored as in the "
@@ -33,16 +36,25 @@ def run(ctx):
         "MaxBackups >= 0)",
     ]
     ctx.lean(props=["Props.C12"], drivers=["drv_c12"])
+    marks["lean_s"] = round(time.time() - t0, 1)
     ctx.harness("./cmd/c12")
-    ctx.diff(area="rot", driver="drv_c12", n={"quick": 60000, "thorough": 4000000}, stateful=True,
+    marks["harness_s"] = round(time.time() - t0, 1)
+    ctx.extra["phase_times"] = marks
+    ctx.diff(area="rot", driver="drv_c12", n={"quick": 160000, "thorough": 6000000}, stateful=True,
              trivial=lambda l, o: o in ("norot", "sync=nil", "nopath", "new=err"),
              tagger=_tag,
              theorem="C12.write_terminates / write_whole / retained_is_suffix / size_bound / backup_count / "
                      "preexisting_appended / close_then_write (model = spec); impl != model on this input "
                      "(`hang` = the Write did not return within the deadline)")
+    marks["diff_s"] = round(time.time() - t0, 1)
+    if ctx.violations:
+        return  # the sequential behaviour is already refuted; the stress runs would only wait for hung writers
     ctx.impl_oracle("stress", {"quick": 24, "thorough": 400},
                     label="concurrent writers: whole records, per-writer suffix, size and backup bounds")
+    marks["stress_s"] = round(time.time() - t0, 1)
     if ctx.harness("./cmd/c12", name="race", race=True):
+        marks["racebuild_s"] = round(time.time() - t0, 1)
         ctx.impl_oracle("stress", {"quick": 6, "thorough": 120}, name="race",
                         extra_env={"GORACE": "halt_on_error=1 exitcode=66"},
                         label="the same under the race detector (a reported race kills the harness)")
+    marks["end_s"] = round(time.time() - t0, 1)
